@@ -76,25 +76,44 @@ Lemma replace_argv_shape R line cmd : length (replace_argv R line cmd) = length 
 Proof. destruct cmd; cbn; [auto|]. now rewrite map_length. Qed.
 
 (* the option given last determines the mode *)
-Lemma normalize_last n l r i_n i_l i_r :
-  (* all three given, at distinct positions *)
-  n <> None -> l <> None -> r = true ->
-  match i_n, i_l, i_r with
-  | Some a, Some b, Some c =>
-      a <> b -> a <> c -> b <> c ->
-      normalize n l r i_n i_l i_r =
-      if (a <? b) && (c <? b) then (None, l, false)
-      else if (b <? a) && (c <? a) then (n, None, false)
-      else (Some 1%N, None, true)
-  | _, _, _ => True end.
+Lemma batch_mode_snoc os o : batch_mode (os ++ [o]) = bstep (batch_mode os) o.
+Proof. unfold batch_mode. now rewrite fold_left_app. Qed.
+
+(* at most one of the three is in force *)
+Definition one_mode (st : bstate) : Prop :=
+  match st with
+  | (None, None, _) | (Some _, None, false) | (None, Some _, false) => True
+  | _ => False
+  end.
+Lemma bstep_one_mode st o : one_mode st -> one_mode (bstep st o).
 Proof.
-  intros Hn Hl ->. destruct i_n as [a|], i_l as [b|], i_r as [c|]; auto. intros _ _ _.
-  destruct n as [n|]; [|congruence]. destruct l as [l|]; [|congruence].
-  unfold normalize, olt. destruct n as [|[p|p|]]; reflexivity.
+  destruct st as [[n l] r]. destruct o as [k|k|]; cbn [bstep]; try exact (fun _ => I).
+  destruct (N.eqb k 1 && r); [exact (fun H => H)|exact (fun _ => I)].
+Qed.
+Lemma batch_mode_one_mode os : one_mode (batch_mode os).
+Proof.
+  induction os as [|o os IH] using rev_ind; [exact I|]. rewrite batch_mode_snoc. now apply bstep_one_mode.
 Qed.
 
-(* -I with -n 1 is not a conflict; -I alone forces one argument per run *)
-Lemma normalize_I_alone : forall i_n i_l i_r,
-  normalize None None true i_n i_l i_r = (Some 1%N, None, true) /\
-  normalize (Some 1%N) None true i_n i_l i_r = (Some 1%N, None, true).
-Proof. intros. split; reflexivity. Qed.
+Lemma normalize_last os :
+  (forall k, normalize (os ++ [OL k]) = (None, Some k, false)) /\
+  normalize (os ++ [OI]) = (Some 1%N, None, true) /\
+  (forall k, k <> 1%N -> normalize (os ++ [ON k]) = (Some k, None, false)) /\
+  (exists r, normalize (os ++ [ON 1%N]) = (Some 1%N, None, r)).
+Proof.
+  unfold normalize. repeat split; intros; rewrite batch_mode_snoc; destruct (batch_mode os) as [[n l] r] eqn:E; cbn [bstep].
+  - reflexivity.
+  - reflexivity.
+  - apply N.eqb_neq in H. now rewrite H.
+  - cbn [N.eqb Pos.eqb andb]. destruct r; [exists true; reflexivity|exists false; reflexivity].
+Qed.
+
+(* -I with -n 1 is not a conflict, in either order; -I alone forces one argument per run *)
+Lemma normalize_I_n1 os :
+  normalize (os ++ [OI; ON 1%N]) = (Some 1%N, None, true) /\ normalize (os ++ [ON 1%N; OI]) = (Some 1%N, None, true) /\
+  normalize (os ++ [OI]) = (Some 1%N, None, true).
+Proof.
+  unfold normalize, batch_mode. rewrite !fold_left_app. cbn [fold_left].
+  destruct (fold_left bstep os (None, None, false)) as [[n l] r]. cbn [bstep].
+  repeat split. destruct (N.eqb 1 1 && r); reflexivity.
+Qed.
